@@ -37,7 +37,10 @@ def gen(rng, tier):
             "poll_after": rng.choice([1, 2]), "cancel_fn": rng.choice([None, "true", "false", "raise"]),
             "timeout": rng.choice([0.1, 0.2, 5000.0, 5000.0]),
             "ninputs": rng.choice([1, 2, 3]), "in_at": [rng.choice([0, 0.05, 0.1, 0.2]) for _ in range(3)],
-            "lib_inputs": rng.random() < 0.3, "settle": 30.0}
+            "lib_inputs": rng.random() < 0.3, "settle": 30.0,
+            # re-entrancy: a done-callback registered on the first input *before* the subject is built
+            # cancels the subject (so a cancel() of the subject re-enters itself on the same thread)
+            "input_cb_cancels_subject": rng.random() < 0.12}
     nclients = rng.choice([2, 2, 3])
     clients = []
     triggers = ["call-enter", "call-exit", "poll-enter", "poll-final", "cb-enter", "pre-complete", "fn-enter"]
@@ -176,6 +179,17 @@ def make_subject(spec, env):
     # combinators
     n = spec["ninputs"]
     raw = [SpyFuture(env, "in%d" % i) for i in range(n)]
+    box = {}
+    if spec.get("input_cb_cancels_subject"):
+        def recancel(_f):
+            f_ = box.get("f")
+            if f_ is not None:
+                env.rec("reentrant-cancel")
+                try:
+                    f_.cancel()
+                except Exception as e:
+                    env.rec("op-ret", "cancel", "raised", type(e).__name__, -1)
+        raw[0].add_done_callback(recancel)
     ins = [MapFuture(r) if spec["lib_inputs"] else r for r in raw]
     if kind == "f_or":
         f = F.f_or(*ins)
@@ -229,6 +243,7 @@ def make_subject(spec, env):
                     r.set_result(("in", i))
             except Exception as e:
                 env.rec("complete-raised", i, type(e).__name__)
+    box["f"] = f
     return f, hook
 
 
